@@ -1,10 +1,626 @@
-From Coq Require Import List ZArith QArith Bool Lia.
+(** Proofs about the time-interpolation adapters (model FV.TimeInterp):
+    every pull of the evicting adapter returns the mathematical definition evaluated on the
+    full publication history; range errors; eviction is invisible; characterisation of the
+    definitions themselves. *)
+From Coq Require Import List ZArith QArith Bool Lia Lqa.
 From FV Require Import Base TimeInterp.
 Import ListNotations.
 Open Scope Z_scope.
 
-Lemma get_data_above ev k b t0 v0 r t :
-  b = (t0, v0) :: r -> last_time t0 r < t -> snd (get_data ev k b t) = ErrTime.
+Arguments last_time : simpl never.
+
+(** strictly increasing publication times *)
+Fixpoint inc_from (t : Z) (l : buf) : Prop :=
+  match l with [] => True | (t', _) :: r => t < t' /\ inc_from t' r end.
+Definition increasing (l : buf) : Prop :=
+  match l with [] => True | (t, _) :: r => inc_from t r end.
+
+(** a publication must be newer than everything published before *)
+Definition push_ok (H : buf) (t : Z) : Prop :=
+  match H with [] => True | (t0, _) :: r => last_time t0 r < t end.
+
+(** an in-range request must not be older than the previous in-range request *)
+Definition req_ok (lr : option Z) (t : Z) : Prop :=
+  match lr with None => True | Some l => l <= t end.
+
+(** Domain of the property: [H] = publications so far, [lr] = last in-range request.
+    Out-of-range requests are allowed anywhere (they raise and change nothing). *)
+Fixpoint valid (H : buf) (lr : option Z) (ops : list op) : Prop :=
+  match ops with
+  | [] => True
+  | Push t v :: r => push_ok H t /\ valid (H ++ [(t, v)]) lr r
+  | Pull t :: r => if in_range H t then req_ok lr t /\ valid H (Some t) r
+                   else valid H lr r
+  end.
+
+Fixpoint lastreq (H : buf) (lr : option Z) (ops : list op) : option Z :=
+  match ops with
+  | [] => lr
+  | Push t v :: r => lastreq (H ++ [(t, v)]) lr r
+  | Pull t :: r => lastreq H (if in_range H t then Some t else lr) r
+  end.
+
+(* ------------------------------------------------------------------ *)
+(** ** increasing lists *)
+
+Lemma last_time_nil t : last_time t [] = t.
+Proof. reflexivity. Qed.
+
+Lemma last_time_cons t0 e (l : buf) : last_time t0 (e :: l) = last_time (fst e) l.
+Proof. reflexivity. Qed.
+
+Lemma last_time_app_cons t0 (l : buf) e r : last_time t0 (l ++ e :: r) = last_time (fst e) r.
+Proof. unfold last_time. rewrite fold_left_app. reflexivity. Qed.
+
+Lemma inc_from_lt t l e : inc_from t l -> In e l -> t < fst e.
 Proof.
-  intros -> H. unfold get_data. destruct (Z.ltb_spec (last_time t0 r) t); [reflexivity|lia].
+  revert t; induction l as [|[t' d'] r IH]; intros t H Hin; [contradiction|].
+  destruct H as [H1 H2]. destruct Hin as [<-|Hin]; [exact H1|].
+  specialize (IH _ H2 Hin). lia.
+Qed.
+
+Lemma inc_from_increasing t l : inc_from t l -> increasing l.
+Proof. destruct l as [|[t1 d1] r]; simpl; tauto. Qed.
+
+Lemma inc_from_last_ge t l : inc_from t l -> t <= last_time t l.
+Proof.
+  revert t; induction l as [|[t1 d1] r IH]; intros t H.
+  - rewrite last_time_nil; lia.
+  - destruct H as [H1 H2]. rewrite last_time_cons. simpl. specialize (IH _ H2). lia.
+Qed.
+
+Lemma inc_from_app t l e :
+  inc_from t (l ++ [e]) <-> inc_from t l /\ last_time t l < fst e.
+Proof.
+  revert t; induction l as [|[t1 d1] r IH]; intros t; simpl.
+  - rewrite last_time_nil. destruct e; simpl; tauto.
+  - rewrite last_time_cons. simpl. rewrite IH. tauto.
+Qed.
+
+Lemma inc_from_app_r t l1 l2 : inc_from t (l1 ++ l2) -> inc_from (last_time t l1) l2.
+Proof.
+  revert t; induction l1 as [|[t1 d1] r IH]; intros t H; simpl in *.
+  - exact H.
+  - rewrite last_time_cons. simpl. apply IH. tauto.
+Qed.
+
+Lemma increasing_app_r l1 l2 : increasing (l1 ++ l2) -> increasing l2.
+Proof.
+  destruct l1 as [|[t d] r]; [tauto|]. simpl. intros H.
+  apply inc_from_app_r in H. exact (inc_from_increasing _ _ H).
+Qed.
+
+Lemma increasing_push H t v : increasing H -> push_ok H t -> increasing (H ++ [(t, v)]).
+Proof.
+  destruct H as [|[t0 v0] r]; simpl; [tauto|].
+  intros Hi Hp. apply inc_from_app. simpl. tauto.
+Qed.
+
+(** everything in front of an entry is older than it *)
+Lemma increasing_app_lt pre e0 r e :
+  increasing (pre ++ e0 :: r) -> In e pre -> fst e < fst e0.
+Proof.
+  induction pre as [|[ta va] pre IH]; intros Hi Hin; [contradiction|].
+  simpl in Hi. destruct Hin as [<-|Hin].
+  - simpl. apply (inc_from_lt _ _ e0 Hi). apply in_or_app; right; left; reflexivity.
+  - apply IH; [|exact Hin]. exact (inc_from_increasing _ _ Hi).
+Qed.
+
+(** everything behind an entry is newer than it *)
+Lemma increasing_app_gt pre e0 r e :
+  increasing (pre ++ e0 :: r) -> In e r -> fst e0 < fst e.
+Proof.
+  intros Hi Hin. apply increasing_app_r in Hi. destruct e0 as [t0 v0]. simpl in *.
+  exact (inc_from_lt _ _ _ Hi Hin).
+Qed.
+
+(* ------------------------------------------------------------------ *)
+(** ** the bracketing publications *)
+
+Definition flo (t : Z) := fun (acc : option (Z * Q)) (e : Z * Q) => if fst e <=? t then Some e else acc.
+Definition fhi (t : Z) := fun e : Z * Q => t <=? fst e.
+
+Arguments flo : simpl never.
+Arguments fhi : simpl never.
+
+Lemma lo_entry_fold H t : lo_entry H t = fold_left (flo t) H None.
+Proof. reflexivity. Qed.
+Lemma hi_entry_find H t : hi_entry H t = find (fhi t) H.
+Proof. reflexivity. Qed.
+
+Lemma flo_le t acc e : fst e <= t -> flo t acc e = Some e.
+Proof. intros H. unfold flo. destruct (Z.leb_spec (fst e) t); [reflexivity|lia]. Qed.
+Lemma flo_gt t acc e : t < fst e -> flo t acc e = acc.
+Proof. intros H. unfold flo. destruct (Z.leb_spec (fst e) t); [lia|reflexivity]. Qed.
+Lemma fhi_true t e : t <= fst e -> fhi t e = true.
+Proof. intros H. unfold fhi. apply Z.leb_le. exact H. Qed.
+Lemma fhi_false t e : fst e < t -> fhi t e = false.
+Proof. intros H. unfold fhi. apply Z.leb_gt. exact H. Qed.
+
+Lemma flo_newer t l acc : (forall e, In e l -> t < fst e) -> fold_left (flo t) l acc = acc.
+Proof.
+  revert acc; induction l as [|e r IH]; intros acc Hall; [reflexivity|].
+  simpl. rewrite flo_gt by (apply Hall; left; reflexivity).
+  apply IH. intros e' He'. apply Hall. right; exact He'.
+Qed.
+
+Lemma fhi_older t l l' : (forall e, In e l -> fst e < t) -> find (fhi t) (l ++ l') = find (fhi t) l'.
+Proof.
+  induction l as [|e r IH]; intros Hall; [reflexivity|].
+  simpl. rewrite fhi_false by (apply Hall; left; reflexivity).
+  apply IH. intros e' He'. apply Hall. right; exact He'.
+Qed.
+
+(** value selected by each definition from the bracketing publications [l] (at or before [t])
+    and [h] (at or after [t]) *)
+Definition sel (k : kind) (t : Z) (l h : Z * Q) : Q :=
+  match k with
+  | KNext => snd h
+  | KPrev => snd l
+  | KLinear => if fst l =? fst h then snd l
+               else (snd l + (inject_Z (t - fst l) / inject_Z (fst h - fst l)) * (snd h - snd l))%Q
+  | KStep s => if fst l =? fst h then snd l
+               else if Qle_bool (inject_Z (t - fst l) / inject_Z (fst h - fst l))%Q s then snd l else snd h
+  end.
+
+Lemma spec_some k H t l h :
+  lo_entry H t = Some l -> hi_entry H t = Some h -> spec k H t = Some (sel k t l h).
+Proof.
+  intros Hl Hh. destruct l as [t0 v0], h as [t1 v1].
+  destruct k; simpl; unfold next_spec, prev_spec, lin_spec, step_spec; rewrite ?Hl, ?Hh; reflexivity.
+Qed.
+
+Lemma spec_ext k H H' t :
+  lo_entry H t = lo_entry H' t -> hi_entry H t = hi_entry H' t -> spec k H t = spec k H' t.
+Proof.
+  intros Hl Hh. destruct k; simpl; unfold next_spec, prev_spec, lin_spec, step_spec;
+    rewrite ?Hl, ?Hh; reflexivity.
+Qed.
+
+(** entries in front of a retained entry that is not newer than [t] do not matter *)
+Lemma suffix_entries pre e0 r t :
+  increasing (pre ++ e0 :: r) -> fst e0 <= t ->
+  lo_entry (pre ++ e0 :: r) t = lo_entry (e0 :: r) t /\
+  hi_entry (pre ++ e0 :: r) t = hi_entry (e0 :: r) t.
+Proof.
+  intros Hi Hle. split.
+  - rewrite !lo_entry_fold, fold_left_app. simpl. rewrite !flo_le by exact Hle. reflexivity.
+  - rewrite !hi_entry_find. apply fhi_older.
+    intros e He. pose proof (increasing_app_lt _ _ _ _ Hi He). lia.
+Qed.
+
+(* ------------------------------------------------------------------ *)
+(** ** the loops compute the definition *)
+
+Lemma sel_same k t e : sel k t e e = snd e.
+Proof. destruct k; simpl; rewrite ?Z.eqb_refl; reflexivity. Qed.
+
+Lemma sel_combine k t p c : fst p < fst c -> sel k t p c = combine k t p c.
+Proof.
+  intros Hlt. destruct k; simpl; try reflexivity.
+  - destruct (Z.eqb_spec (fst p) (fst c)); [lia|]. reflexivity.
+  - destruct (Z.eqb_spec (fst p) (fst c)); [lia|].
+    unfold Qgt_bool, rel_pos. destruct (Qle_bool _ s); reflexivity.
+Qed.
+
+Lemma loop_sel k t : forall l p,
+  inc_from (fst p) l -> fst p < t -> t <= last_time (fst p) l ->
+  exists lo hi, fold_left (flo t) l (Some p) = Some lo /\ find (fhi t) l = Some hi /\
+                interp_loop k t p l = Ok (sel k t lo hi).
+Proof.
+  induction l as [|[tc d] r IH]; intros p Hinc Hlt Hle.
+  - rewrite last_time_nil in Hle. lia.
+  - destruct Hinc as [Hpc Hr]. rewrite last_time_cons in Hle. simpl in Hle.
+    assert (Hnewer : forall x, x <= tc -> forall e, In e r -> x < fst e).
+    { intros x Hx e He. pose proof (inc_from_lt _ _ _ Hr He). lia. }
+    simpl.
+    destruct (Z.ltb_spec tc t) as [Hct|Hct].
+    + rewrite flo_le by (simpl; lia). rewrite fhi_false by (simpl; lia).
+      apply (IH (tc, d)); simpl; assumption || lia.
+    + rewrite fhi_true by (simpl; lia).
+      destruct (Z.eqb_spec t tc) as [Heq|Hne].
+      * subst tc. rewrite flo_le by (simpl; lia).
+        exists (t, d), (t, d). rewrite flo_newer by (apply Hnewer; lia).
+        rewrite sel_same. auto.
+      * rewrite flo_gt by (simpl; lia).
+        exists p, (tc, d). rewrite flo_newer by (apply Hnewer; lia).
+        rewrite sel_combine by (simpl; lia). auto.
+Qed.
+
+Lemma in_range_cons t0 v0 r t :
+  in_range ((t0, v0) :: r) t = true <-> t0 <= t <= last_time t0 r.
+Proof. simpl. rewrite andb_true_iff, !Z.leb_le. tauto. Qed.
+
+Lemma interpolate_sel k b t :
+  increasing b -> in_range b t = true ->
+  exists lo hi, lo_entry b t = Some lo /\ hi_entry b t = Some hi /\
+                interpolate k b t = Ok (sel k t lo hi).
+Proof.
+  destruct b as [|[t0 v0] r]; intros Hinc Hr; [discriminate|].
+  apply in_range_cons in Hr. simpl in Hinc.
+  assert (Hnewer : forall e, In e r -> t0 < fst e) by (intros e He; exact (inc_from_lt _ _ _ Hinc He)).
+  rewrite lo_entry_fold, hi_entry_find.
+  destruct (Z.eq_dec t0 t) as [Heq|Hne].
+  - (* request exactly at the oldest retained entry *)
+    subst t0. exists (t, v0), (t, v0). simpl fold_left. simpl find.
+    rewrite flo_le by (simpl; lia). rewrite fhi_true by (simpl; lia).
+    rewrite flo_newer by (intros e He; exact (Hnewer e He)).
+    rewrite sel_same. simpl snd. repeat split.
+    destruct r as [|e1 r1]; [reflexivity|].
+    unfold interpolate. unfold interp_loop; fold interp_loop.
+    rewrite Z.ltb_irrefl, Z.eqb_refl. reflexivity.
+  - destruct r as [|e1 r1].
+    + rewrite last_time_nil in Hr. lia.
+    + destruct (loop_sel k t (e1 :: r1) (t0, v0)) as [lo [hi [H1 [H2 H3]]]]; simpl; try tauto; try lia.
+      exists lo, hi.
+      split; [|split].
+      * simpl fold_left. rewrite (flo_le t None (t0, v0)) by (simpl; lia). exact H1.
+      * simpl find. rewrite (fhi_false t (t0, v0)) by (simpl; lia). exact H2.
+      * unfold interpolate. unfold interp_loop; fold interp_loop.
+        destruct (Z.ltb_spec t0 t); [|lia]. exact H3.
+Qed.
+
+(* ------------------------------------------------------------------ *)
+(** ** eviction *)
+
+Lemma clear_cached_suffix t b : exists pre, b = pre ++ clear_cached t b.
+Proof.
+  induction b as [|e0 r IH]; [exists []; reflexivity|].
+  simpl. destruct r as [|[t1 v1] r1]; [exists []; reflexivity|].
+  destruct (t1 <=? t); [|exists []; reflexivity].
+  destruct IH as [pre Hpre]. exists (e0 :: pre). simpl. f_equal. exact Hpre.
+Qed.
+
+Lemma clear_cached_first t : forall b e0 r,
+  b = e0 :: r -> fst e0 <= t -> exists e1 r1, clear_cached t b = e1 :: r1 /\ fst e1 <= t.
+Proof.
+  induction b as [|e r IH]; intros e0 r0 Hb Hle; [discriminate|].
+  injection Hb as -> ->. simpl. destruct r0 as [|[t1 v1] r1]; [exists e0, []; auto|].
+  destruct (Z.leb_spec t1 t) as [H1|H1]; [|exists e0, ((t1, v1) :: r1); auto].
+  apply (IH (t1, v1) r1); [reflexivity|exact H1].
+Qed.
+
+(* ------------------------------------------------------------------ *)
+(** ** the invariant: the retained buffer is a suffix of the history whose first entry is not
+       newer than the last in-range request *)
+
+Arguments clear_cached : simpl never.
+
+Definition Inv (H b : buf) (lr : option Z) : Prop :=
+  increasing H /\
+  exists pre, H = pre ++ b /\
+    match lr with
+    | None => pre = []
+    | Some l => exists e0 r, b = e0 :: r /\ fst e0 <= l
+    end.
+
+Lemma Inv_init : Inv [] [] None.
+Proof. split; [exact I|]. exists []. auto. Qed.
+
+Lemma Inv_push H b lr t v :
+  Inv H b lr -> push_ok H t -> Inv (H ++ [(t, v)]) (source_updated b t v) lr.
+Proof.
+  intros [Hinc [pre [HH Hlr]]] Hp. split; [apply increasing_push; assumption|].
+  exists pre. unfold source_updated. split; [rewrite HH, app_assoc; reflexivity|].
+  destruct lr as [l|]; [|exact Hlr].
+  destruct Hlr as [e0 [r [-> Hle]]]. exists e0, (r ++ [(t, v)]). auto.
+Qed.
+
+Lemma first_le_retained pre e0 r h0 x hr :
+  increasing (pre ++ e0 :: r) -> pre ++ e0 :: r = (h0, x) :: hr -> h0 <= fst e0.
+Proof.
+  intros Hinc Heq. destruct pre as [|a pre'].
+  - simpl in Heq. injection Heq as -> _. simpl. lia.
+  - simpl in Heq. injection Heq as -> _.
+    pose proof (increasing_app_lt ((h0, x) :: pre') e0 r (h0, x) Hinc (or_introl eq_refl)).
+    simpl in *. lia.
+Qed.
+
+Lemma pull_step ev k H b lr t :
+  Inv H b lr ->
+  (in_range H t = true -> req_ok lr t) ->
+  snd (get_data ev k b t) = spec_pull k H t /\
+  Inv H (fst (get_data ev k b t)) (if in_range H t then Some t else lr).
+Proof.
+  intros HI Hreq. pose proof HI as [Hinc [pre [HH Hlr]]].
+  destruct b as [|[t0 v0] r].
+  - (* nothing buffered: nothing published *)
+    assert (pre = []) as -> by (destruct lr as [l|]; [destruct Hlr as [? [? [? _]]]; discriminate|exact Hlr]).
+    simpl in HH. subst H. simpl. split; [reflexivity|exact HI].
+  - destruct H as [|[h0 x] hr]; [destruct pre; discriminate|].
+    assert (Hh0 : h0 <= t0) by exact (first_le_retained pre (t0, v0) r h0 x hr ltac:(rewrite <- HH; exact Hinc) (eq_sym HH)).
+    assert (Hlast : last_time h0 hr = last_time t0 r).
+    { destruct pre as [|a pre'].
+      - simpl in HH. injection HH as -> -> ->. reflexivity.
+      - simpl in HH. injection HH as _ ->. apply last_time_app_cons. }
+    destruct (in_range ((h0, x) :: hr) t) eqn:Hr.
+    + (* in range *)
+      specialize (Hreq eq_refl). apply in_range_cons in Hr.
+      assert (Ht0 : t0 <= t).
+      { destruct lr as [l|]; simpl in Hreq.
+        - destruct Hlr as [e0 [r' [Hb Hle]]]. injection Hb as <- _. simpl in Hle. lia.
+        - subst pre. simpl in HH. injection HH as -> _ _. lia. }
+      assert (Hincb : increasing ((t0, v0) :: r)) by (rewrite HH in Hinc; exact (increasing_app_r _ _ Hinc)).
+      assert (Hrb : in_range ((t0, v0) :: r) t = true) by (apply in_range_cons; lia).
+      destruct (interpolate_sel k _ t Hincb Hrb) as [lo [hi [Hlo [Hhi Hval]]]].
+      assert (Hspec : spec k ((h0, x) :: hr) t = Some (sel k t lo hi)).
+      { rewrite HH. destruct (suffix_entries pre (t0, v0) r t) as [E1 E2];
+          [rewrite <- HH; exact Hinc|exact Ht0|].
+        apply spec_some; [rewrite E1; exact Hlo|rewrite E2; exact Hhi]. }
+      unfold get_data.
+      destruct (Z.ltb_spec (last_time t0 r) t); [lia|]. destruct (Z.ltb_spec t t0); [lia|].
+      simpl orb. cbv iota. rewrite Hval. simpl fst. simpl snd.
+      split.
+      * unfold spec_pull. replace (in_range ((h0, x) :: hr) t) with true
+          by (symmetry; apply in_range_cons; lia).
+        rewrite Hspec. reflexivity.
+      * split; [exact Hinc|].
+        destruct ev.
+        -- destruct (clear_cached_suffix t ((t0, v0) :: r)) as [pre' Hpre'].
+           destruct (clear_cached_first t _ (t0, v0) r eq_refl Ht0) as [e1 [r1 [Hc Hle]]].
+           exists (pre ++ pre'). split.
+           ++ rewrite <- app_assoc. rewrite Hc in Hpre'. rewrite Hc. rewrite <- Hpre'. exact HH.
+           ++ exists e1, r1. auto.
+        -- exists pre. split; [exact HH|]. exists (t0, v0), r. auto.
+    + (* outside the published range *)
+      assert (Hout : t < h0 \/ last_time h0 hr < t).
+      { pose proof Hr as Hr'. simpl in Hr'. apply andb_false_iff in Hr'. rewrite !Z.leb_gt in Hr'. tauto. }
+      unfold get_data.
+      replace ((last_time t0 r <? t) || (t <? t0)) with true.
+      2:{ symmetry. apply orb_true_iff. rewrite !Z.ltb_lt. lia. }
+      split; [simpl snd; unfold spec_pull; rewrite Hr; reflexivity|simpl fst; exact HI].
+Qed.
+
+(* ------------------------------------------------------------------ *)
+(** ** main results *)
+
+Lemma run_spec_gen ev k : forall ops H b lr,
+  Inv H b lr -> valid H lr ops -> run ev k b ops = spec_run k H ops.
+Proof.
+  induction ops as [|[t v|t] r IH]; intros H b lr HI Hv; [reflexivity| |].
+  - destruct Hv as [Hp Hv]. simpl. apply (IH _ _ lr); [apply Inv_push; assumption|exact Hv].
+  - simpl in Hv. simpl.
+    destruct (pull_step ev k H b lr t HI) as [Hres HI'].
+    { intros Hr. rewrite Hr in Hv. tauto. }
+    destruct (get_data ev k b t) as [b' x]. simpl in *. subst x. f_equal.
+    destruct (in_range H t); [apply (IH _ _ (Some t)); tauto|apply (IH _ _ lr); assumption].
+Qed.
+
+Lemma final_inv ev k : forall ops H b lr,
+  Inv H b lr -> valid H lr ops -> Inv (pubs H ops) (final ev k b ops) (lastreq H lr ops).
+Proof.
+  induction ops as [|[t v|t] r IH]; intros H b lr HI Hv; [exact HI| |].
+  - destruct Hv as [Hp Hv]. simpl. apply IH; [apply Inv_push; assumption|exact Hv].
+  - simpl in Hv. simpl.
+    destruct (pull_step ev k H b lr t HI) as [_ HI'].
+    { intros Hr. rewrite Hr in Hv. tauto. }
+    apply IH; [exact HI'|]. destruct (in_range H t); tauto.
+Qed.
+
+Lemma valid_app : forall o1 H lr o2,
+  valid H lr (o1 ++ o2) <-> valid H lr o1 /\ valid (pubs H o1) (lastreq H lr o1) o2.
+Proof.
+  induction o1 as [|[t v|t] r IH]; intros H lr o2; simpl; [tauto| |].
+  - rewrite IH. tauto.
+  - destruct (in_range H t); rewrite IH; tauto.
+Qed.
+
+(** every pull of the (evicting or not) adapter returns the definition on the history so far *)
+Theorem adapter_is_definition ev k ops :
+  valid [] None ops -> run ev k [] ops = spec_run k [] ops.
+Proof. intros Hv. exact (run_spec_gen ev k ops [] [] None Inv_init Hv). Qed.
+
+Theorem eviction_invisible k ops :
+  valid [] None ops -> run true k [] ops = run false k [] ops.
+Proof. intros Hv. rewrite !adapter_is_definition by exact Hv. reflexivity. Qed.
+
+(** one more request after any valid script *)
+Lemma after_script ev k ops t :
+  valid [] None (ops ++ [Pull t]) ->
+  snd (get_data ev k (final ev k [] ops) t) = spec_pull k (pubs [] ops) t.
+Proof.
+  intros Hv. apply valid_app in Hv. destruct Hv as [Hv1 Hv2].
+  pose proof (final_inv ev k ops [] [] None Inv_init Hv1) as HI.
+  apply (pull_step ev k _ _ _ t HI). intros Hr. simpl in Hv2. rewrite Hr in Hv2. tauto.
+Qed.
+
+Theorem out_of_range_raises ev k ops t :
+  valid [] None ops -> in_range (pubs [] ops) t = false ->
+  snd (get_data ev k (final ev k [] ops) t) =
+  match pubs [] ops with [] => ErrNoData | _ => ErrTime end.
+Proof.
+  intros Hv Hr. rewrite after_script.
+  - unfold spec_pull. rewrite Hr. reflexivity.
+  - apply valid_app. split; [exact Hv|]. simpl. rewrite Hr. exact I.
+Qed.
+
+(* ------------------------------------------------------------------ *)
+(** ** the definitions are what their names say *)
+
+Lemma lo_entry_snoc H x t :
+  lo_entry (H ++ [x]) t = if fst x <=? t then Some x else lo_entry H t.
+Proof. rewrite !lo_entry_fold, fold_left_app. reflexivity. Qed.
+
+(** [lo_entry] is the last entry (in list order) with time [<= t] *)
+Lemma lo_entry_split H t e :
+  lo_entry H t = Some e ->
+  exists l1 l2, H = l1 ++ e :: l2 /\ fst e <= t /\ forall e', In e' l2 -> t < fst e'.
+Proof.
+  revert e. induction H as [|x H IH] using rev_ind; intros e He; [discriminate|].
+  rewrite lo_entry_snoc in He. destruct (Z.leb_spec (fst x) t) as [Hx|Hx].
+  - injection He as <-. exists H, []. repeat split; [exact Hx|]. intros ? [].
+  - destruct (IH _ He) as [l1 [l2 [-> [Hle Hall]]]].
+    exists l1, (l2 ++ [x]). rewrite <- app_assoc. repeat split; [exact Hle|].
+    intros e' He'. apply in_app_or in He'. destruct He' as [He'|[<-|[]]]; [auto|exact Hx].
+Qed.
+
+(** [hi_entry] is the first entry (in list order) with time [>= t] *)
+Lemma hi_entry_split H t e :
+  hi_entry H t = Some e ->
+  exists l1 l2, H = l1 ++ e :: l2 /\ t <= fst e /\ forall e', In e' l1 -> fst e' < t.
+Proof.
+  rewrite hi_entry_find. induction H as [|x H IH]; intros He; [discriminate|].
+  simpl in He. unfold fhi at 1 in He. destruct (Z.leb_spec t (fst x)) as [Hx|Hx].
+  - injection He as <-. exists [], H. repeat split; [exact Hx|]. intros ? [].
+  - destruct (IH He) as [l1 [l2 [-> [Hle Hall]]]].
+    exists (x :: l1), l2. repeat split; [exact Hle|].
+    intros e' [<-|He']; [exact Hx|auto].
+Qed.
+
+(** the last publication at or before [t] / the first at or after [t] *)
+Definition latest_at_or_before (H : buf) (t : Z) (e : Z * Q) : Prop :=
+  In e H /\ fst e <= t /\ forall e', In e' H -> fst e' <= t -> fst e' <= fst e.
+Definition earliest_at_or_after (H : buf) (t : Z) (e : Z * Q) : Prop :=
+  In e H /\ t <= fst e /\ forall e', In e' H -> t <= fst e' -> fst e <= fst e'.
+
+Lemma lo_entry_sound H t e :
+  increasing H -> lo_entry H t = Some e -> latest_at_or_before H t e.
+Proof.
+  intros Hinc He. destruct (lo_entry_split _ _ _ He) as [l1 [l2 [-> [Hle Hall]]]].
+  split; [apply in_or_app; right; left; reflexivity|]. split; [exact Hle|].
+  intros e' Hin Hle'. apply in_app_or in Hin. destruct Hin as [Hin|[<-|Hin]].
+  - pose proof (increasing_app_lt _ _ _ _ Hinc Hin). lia.
+  - lia.
+  - specialize (Hall _ Hin). lia.
+Qed.
+
+Lemma hi_entry_sound H t e :
+  increasing H -> hi_entry H t = Some e -> earliest_at_or_after H t e.
+Proof.
+  intros Hinc He. destruct (hi_entry_split _ _ _ He) as [l1 [l2 [-> [Hle Hall]]]].
+  split; [apply in_or_app; right; left; reflexivity|]. split; [exact Hle|].
+  intros e' Hin Hle'. apply in_app_or in Hin. destruct Hin as [Hin|[<-|Hin]].
+  - specialize (Hall _ Hin). lia.
+  - lia.
+  - pose proof (increasing_app_gt _ _ _ _ Hinc Hin). lia.
+Qed.
+
+(** the brackets of a request at a publication time / strictly between two consecutive ones *)
+Lemma entries_at l1 e l2 :
+  increasing (l1 ++ e :: l2) ->
+  lo_entry (l1 ++ e :: l2) (fst e) = Some e /\ hi_entry (l1 ++ e :: l2) (fst e) = Some e.
+Proof.
+  intros Hinc. destruct (suffix_entries l1 e l2 (fst e) Hinc (Z.le_refl _)) as [-> ->].
+  rewrite lo_entry_fold, hi_entry_find. simpl.
+  rewrite flo_le by lia. rewrite fhi_true by lia.
+  split; [|reflexivity]. apply flo_newer.
+  intros e' He'. exact (increasing_app_gt _ _ _ _ Hinc He').
+Qed.
+
+Lemma entries_between l1 e0 e1 l2 t :
+  increasing (l1 ++ e0 :: e1 :: l2) -> fst e0 < t < fst e1 ->
+  lo_entry (l1 ++ e0 :: e1 :: l2) t = Some e0 /\ hi_entry (l1 ++ e0 :: e1 :: l2) t = Some e1.
+Proof.
+  intros Hinc Ht. destruct (suffix_entries l1 e0 (e1 :: l2) t Hinc ltac:(lia)) as [-> ->].
+  rewrite lo_entry_fold, hi_entry_find. simpl.
+  rewrite (flo_le t None e0) by lia. rewrite (fhi_false t e0) by lia.
+  rewrite (flo_gt t _ e1) by lia. rewrite (fhi_true t e1) by lia.
+  split; [|reflexivity]. apply flo_newer.
+  intros e' He'.
+  assert (Hinc' : increasing ((l1 ++ [e0]) ++ e1 :: l2)) by (rewrite <- app_assoc; exact Hinc).
+  pose proof (increasing_app_gt _ _ _ _ Hinc' He'). lia.
+Qed.
+
+Lemma in_range_member H e : increasing H -> In e H -> in_range H (fst e) = true.
+Proof.
+  intros Hinc Hin. destruct H as [|[t0 v0] r]; [contradiction|].
+  apply in_range_cons. simpl in Hinc. destruct Hin as [<-|Hin]; simpl.
+  - pose proof (inc_from_last_ge _ _ Hinc). lia.
+  - apply in_split in Hin. destruct Hin as [l1 [l2 ->]].
+    pose proof (inc_from_lt _ _ e Hinc ltac:(apply in_or_app; right; left; reflexivity)).
+    rewrite last_time_app_cons.
+    pose proof (inc_from_app_r _ _ _ Hinc) as Hr. simpl in Hr. destruct e as [te ve]. simpl in *.
+    destruct Hr as [_ Hr]. pose proof (inc_from_last_ge _ _ Hr). lia.
+Qed.
+
+(** at a publication time every definition gives the published value *)
+Theorem spec_at_publication k H t v :
+  increasing H -> In (t, v) H -> spec_pull k H t = Ok v.
+Proof.
+  intros Hinc Hin. pose proof (in_range_member H (t, v) Hinc Hin) as Hr. simpl in Hr.
+  unfold spec_pull. rewrite Hr. destruct H as [|h0 hr]; [contradiction|].
+  apply in_split in Hin. destruct Hin as [l1 [l2 Heq]]. rewrite Heq in *.
+  destruct (entries_at l1 (t, v) l2 Hinc) as [Hlo Hhi]. simpl fst in *.
+  rewrite (spec_some k _ _ _ _ Hlo Hhi), sel_same. reflexivity.
+Qed.
+
+Lemma pubs_increasing : forall ops H lr, increasing H -> valid H lr ops -> increasing (pubs H ops).
+Proof.
+  induction ops as [|[t v|t] r IH]; intros H lr Hinc Hv; [exact Hinc| |].
+  - destruct Hv as [Hp Hv]. simpl. apply (IH _ lr); [apply increasing_push; assumption|exact Hv].
+  - simpl in *. destruct (in_range H t); [apply (IH _ (Some t)); tauto|apply (IH _ lr); assumption].
+Qed.
+
+Theorem at_publication ev k ops t v :
+  valid [] None (ops ++ [Pull t]) -> In (t, v) (pubs [] ops) ->
+  snd (get_data ev k (final ev k [] ops) t) = Ok v.
+Proof.
+  intros Hv Hin. rewrite after_script by exact Hv.
+  apply spec_at_publication; [|exact Hin].
+  apply valid_app in Hv. destruct Hv as [Hv _]. exact (pubs_increasing ops [] None I Hv).
+Qed.
+
+(** between two consecutive publications the linear definition is the straight line, and it
+    passes through both publications *)
+Theorem lin_spec_formula l1 t0 v0 t1 v1 l2 t :
+  increasing (l1 ++ (t0, v0) :: (t1, v1) :: l2) -> t0 <= t <= t1 ->
+  exists v, lin_spec (l1 ++ (t0, v0) :: (t1, v1) :: l2) t = Some v /\
+            (v == v0 + (inject_Z (t - t0) / inject_Z (t1 - t0)) * (v1 - v0))%Q.
+Proof.
+  intros Hinc Ht.
+  assert (Hlt : t0 < t1).
+  { pose proof (increasing_app_gt l1 (t0, v0) ((t1, v1) :: l2) (t1, v1) Hinc (or_introl eq_refl)).
+    simpl in *. lia. }
+  assert (Hnz : ~ (inject_Z (t1 - t0) == 0)%Q).
+  { intros E. unfold Qeq in E. simpl in E. lia. }
+  destruct (Z.eq_dec t t0) as [->|Hn0]; [|destruct (Z.eq_dec t t1) as [->|Hn1]].
+  - destruct (entries_at l1 (t0, v0) ((t1, v1) :: l2) Hinc) as [Hlo Hhi]. simpl fst in *.
+    exists v0. split.
+    + pose proof (spec_some KLinear _ _ _ _ Hlo Hhi) as E. simpl in E. rewrite Z.eqb_refl in E. exact E.
+    + rewrite Z.sub_diag. unfold Qdiv. setoid_replace (inject_Z 0) with 0%Q by reflexivity. ring.
+  - assert (Hinc' : increasing ((l1 ++ [(t0, v0)]) ++ (t1, v1) :: l2)) by (rewrite <- app_assoc; exact Hinc).
+    destruct (entries_at _ (t1, v1) l2 Hinc') as [Hlo Hhi]. simpl fst in *.
+    rewrite <- app_assoc in Hlo, Hhi. simpl in Hlo, Hhi.
+    exists v1. split.
+    + pose proof (spec_some KLinear _ _ _ _ Hlo Hhi) as E. simpl in E. rewrite Z.eqb_refl in E. exact E.
+    + field. exact Hnz.
+  - destruct (entries_between l1 (t0, v0) (t1, v1) l2 t Hinc) as [Hlo Hhi]; [simpl; lia|].
+    pose proof (spec_some KLinear _ _ _ _ Hlo Hhi) as E. simpl in E.
+    destruct (Z.eqb_spec t0 t1); [lia|]. eexists. split; [exact E|reflexivity].
+Qed.
+
+(** strictly between two consecutive publications the step definition switches from the older
+    to the newer value exactly when the relative position exceeds [s] *)
+Theorem step_spec_formula s l1 t0 v0 t1 v1 l2 t :
+  increasing (l1 ++ (t0, v0) :: (t1, v1) :: l2) -> t0 < t < t1 ->
+  step_spec s (l1 ++ (t0, v0) :: (t1, v1) :: l2) t =
+  Some (if Qle_bool (inject_Z (t - t0) / inject_Z (t1 - t0))%Q s then v0 else v1).
+Proof.
+  intros Hinc Ht.
+  destruct (entries_between l1 (t0, v0) (t1, v1) l2 t Hinc) as [Hlo Hhi]; [simpl; lia|].
+  pose proof (spec_some (KStep s) _ _ _ _ Hlo Hhi) as E. simpl in E.
+  destruct (Z.eqb_spec t0 t1); [lia|]. exact E.
+Qed.
+
+Theorem next_spec_sound H t v :
+  increasing H -> next_spec H t = Some v -> exists e, earliest_at_or_after H t e /\ snd e = v.
+Proof.
+  unfold next_spec. intros Hinc E. destruct (hi_entry H t) as [e|] eqn:He; [|discriminate].
+  injection E as <-. exists e. split; [exact (hi_entry_sound _ _ _ Hinc He)|reflexivity].
+Qed.
+
+Theorem prev_spec_sound H t v :
+  increasing H -> prev_spec H t = Some v -> exists e, latest_at_or_before H t e /\ snd e = v.
+Proof.
+  unfold prev_spec. intros Hinc E. destruct (lo_entry H t) as [e|] eqn:He; [|discriminate].
+  injection E as <-. exists e. split; [exact (lo_entry_sound _ _ _ Hinc He)|reflexivity].
+Qed.
+
+(** within the published range every definition is defined (so [spec_pull] never falls back to
+    its error default for an in-range request) *)
+Theorem spec_defined k H t :
+  increasing H -> in_range H t = true -> exists v, spec k H t = Some v.
+Proof.
+  intros Hinc Hr. destruct (interpolate_sel k H t Hinc Hr) as [lo [hi [Hlo [Hhi _]]]].
+  eexists. exact (spec_some k _ _ _ _ Hlo Hhi).
 Qed.
